@@ -862,10 +862,12 @@ func (q *seqRun) compare(v core.View) {
 		if !reflect.DeepEqual(obsWait, mWait) && !(len(obsWait) == 0 && len(mWait) == 0) {
 			q.find(append([]string{"C07"}, q.confProps()...), "conformance:waiting-list", "pipeline %s: waiting %s, model %s (model state %s)", p, q.jns(obsWait), q.jns(mWait), q.m)
 		}
-		if cfg.QueueLimit != nil && len(obsWait) > *cfg.QueueLimit {
+		// snapshot invariants of the definition in force: only meaningful while the definitions never changed (jobs
+		// queued under an earlier, more generous definition legitimately stay; the exact list is compared with the model)
+		if cfg.QueueLimit != nil && len(obsWait) > *cfg.QueueLimit && !q.reloaded {
 			q.find([]string{"C05"}, "C05:more-waiting-than-queue-limit", "pipeline %s: %d jobs waiting with queue_limit %d", p, len(obsWait), *cfg.QueueLimit)
 		}
-		if cfg.Replace && len(obsWait) > 1 {
+		if cfg.Replace && len(obsWait) > 1 && !q.reloaded {
 			q.find([]string{"C05", "C07"}, "C05:more-than-one-waiting-under-replace", "pipeline %s: %d jobs waiting under the replace strategy", p, len(obsWait))
 		}
 		if fl, ok := flags[p]; ok {
